@@ -68,6 +68,9 @@ def plan(tier, seed):
     jobs.append({'space': 'debuglog', 'tier': tier, 'weight': 200})
     jobs.append({'space': 'punct', 'tier': tier, 'weight': 300})
     jobs.append({'space': 'templates-together', 'tier': tier, 'weight': 50})
+    for i in range(len(PAIR_RULES)):
+        jobs.append({'space': 'two-threads', 'tier': tier, 'pair': i,
+                     'weight': 300})
     if b.get('lists3'):
         for lo, hi in core.chunks(len(words(2)), 32):
             jobs.append({'space': 'lists3', 'lo': lo, 'hi': hi, 'tier': tier,
@@ -107,8 +110,46 @@ def _set(enf, match):
                           'd': 'not (%s or !)' % chk})
 
 
+# (rule, (target, roles) of thread A, of thread B)
+PAIR_RULES = [
+    ('role:%(k)s', ({'k': 'a'}, ['a']), ({'k': 'b'}, ['a'])),
+    ('role:x-%(k)s%(j)s', ({'k': 'a', 'j': 'B'}, ['X-Ab']),
+     ({'k': 'a'}, ['x-ab'])),
+    ('role:Ab', ({}, ['aB', 'c']), ({}, ['c'])),
+    ('not role:%(k)s', ({'k': 'a'}, ['a']), ({'k': 'b'}, ['a'])),
+]
+
+
+def run_pair(acc, job):
+    """Two threads evaluate the SAME role check object with different
+    targets and role lists (engine E3, mc/pairs.py)."""
+    from mc import pairs
+    text, a, b = PAIR_RULES[job['pair']]
+    inp = {'A': a, 'B': b}
+    exp = {}
+    for n in 'AB':
+        e = world.bare_enforcer()
+        world.set_rules(e, {'p': text})
+        exp[n] = bool(e.enforce('p', dict(inp[n][0]),
+                                {'roles': list(inp[n][1])}))
+
+    def make_bodies():
+        enf = world.bare_enforcer()
+        world.set_rules(enf, {'p': text})
+        return {n: (lambda n=n: bool(enf.enforce(
+            'p', dict(inp[n][0]), {'roles': list(inp[n][1])})))
+            for n in 'AB'}
+    pairs.explore(acc, 'two-threads', text, make_bodies, exp,
+                  1 if job['tier'] == 'quick' else 2,
+                  lambda n: 'target %r roles %r' % inp[n])
+    acc.sample('two-threads', {'rule': text})
+    return acc.result()
+
+
 def run(job, seed):
     acc = core.Acc()
+    if job['space'] == 'two-threads':
+        return run_pair(acc, job)
     enf = world.bare_enforcer()
     b = BOUNDS[job['tier']]
     space = job['space']
